@@ -103,7 +103,8 @@ def run(ctx):
 
 RULE = ("cases = corpus/C11 witnesses + generated workspaces (as C10) x every position right after a dot of every chain (complete member name, partial "
         "name with the cursor anywhere in it, dangling dot at the end of a body and in its middle followed by exit / an if block / an assignment / a call / a chain, "
-        "possibly after an empty line) and every statement start (first column of every statement, empty lines; also in methods that follow body-less "
+        "possibly after an empty line, a while block, break / continue / return); the operand left of the dot has a class in two cases of three and none in the third (native or undeclared type, "
+        "untyped parameter, undeclared name, procedure / intrinsic result, a variable spelt like a class or module of the workspace but of another type) — no proposals there whatever follows) and every statement start (first column of every statement, empty lines; also in methods that follow body-less "
         "external / forward methods with parameters); one evaluation = one completion request on the real ProjectManager, labels sorted with duplicates kept, compared with "
         "the model and with the generator's visibility set; distinct_nontrivial = number of distinct non-empty implementation answers")
 
